@@ -10,6 +10,8 @@ text is reported as a new violation.  Over-acceptance findings (calmjs accepts a
 text the reference rejects) cannot be neutralised through the reference token
 stream; they are recognised by narrow predicates over calmjs's own tree.
 """
+import re
+
 from harness import ref_es5
 
 LT = ref_es5.LT
@@ -90,10 +92,9 @@ def n_accessor_gap(ref, src):
     for node in walk(ref.root):
         if node.kind in ('Getter', 'Setter'):
             g = src.gaps[node.first + 1]
-            if not (len(g) == 1 and not has_comment(g)) and g != '\r\n':
-                src.gaps[node.first + 1] = ' '
-                n += 1
-            elif g == '\r\n':
+            # the lexer recognises the keyword only in front of exactly one character matched by the
+            # regex class \s (which e.g. lacks the BOM, an ES5 white space)
+            if not (len(g) == 1 and re.match(r'\s', g)):
                 src.gaps[node.first + 1] = ' '
                 n += 1
     return n
